@@ -154,6 +154,11 @@ def opMarshalDxdt : Handler := fun j => do
   return Json.mkObj [("ok", ratListJson ((List.range sys.nSpecies).flatMap fun s =>
     (List.range n).map fun i => eulerDxdt e x i s))]
 
+/-- `{"op":"pysys_dimwf","sys":…}` → does the system satisfy the dimension invariants (`dimWFb`) the any-units theorems assume -/
+def opPySysDimWF : Handler := fun j => do
+  let sys ← getPySys (← field j "sys")
+  return Json.mkObj [("ok", dimWFb sys)]
+
 /-! ### Spec -/
 
 def getPhys (j : Json) : Except String Spec.Phys := do
@@ -200,6 +205,6 @@ def opSpecRate : Handler := fun j => do
 def kineticsOps : List (String × Handler) :=
   [("dstate", opDstate), ("reaction_rates", opReactionRates), ("diffusion_rates", opDiffusionRates),
    ("dxdtf", opDxdtf), ("apply_reaction", opApplyReaction), ("marshal", opMarshal), ("marshal_dxdt", opMarshalDxdt),
-   ("spec_rate", opSpecRate)]
+   ("spec_rate", opSpecRate), ("pysys_dimwf", opPySysDimWF)]
 
 end Strengths.Driver
